@@ -160,10 +160,13 @@ def finding_matches(entry, pid, sig):
 
 
 def write_evidence(pid, tier, seed, coverage, assumptions, wall, nviol):
-    os.makedirs(os.path.join(env.VERIF, 'evidence'), exist_ok=True)
+    evdir = os.path.join(env.VERIF, 'evidence')
+    if os.path.realpath(env.REPO) != os.path.realpath('/repo'):
+        evdir = os.path.join(OUT, 'evidence-scratch')     # self-test runs against a scratch copy never touch evidence/
+    os.makedirs(evdir, exist_ok=True)
     ev = dict(property_id=pid, tier=tier, seed=seed, level='exploration', coverage=coverage,
               assumptions=assumptions, wall_s=round(wall, 2), violations=nviol)
-    with open(os.path.join(env.VERIF, 'evidence', f'{pid}.json'), 'w') as f:
+    with open(os.path.join(evdir, f'{pid}.json'), 'w') as f:
         json.dump(ev, f, indent=1, default=str)
 
 
@@ -189,7 +192,7 @@ def run_check(pid, tier, seed, budget=None, workers=None, ncases=None):
     wenv['OMP_NUM_THREADS'] = '1'
     wenv['MKL_NUM_THREADS'] = '1'
     for shard in range(nshards):
-        outpath = os.path.join(logdir, f'{pid}.{tier}.{seed}.{shard}.json')
+        outpath = os.path.join(logdir, f'{pid}.{tier}.{seed}.{os.getpid()}.{shard}.json')
         if os.path.exists(outpath):
             os.remove(outpath)
         errpath = outpath[:-5] + '.err'
@@ -220,6 +223,11 @@ def run_check(pid, tier, seed, budget=None, workers=None, ncases=None):
             continue
         with open(outpath) as f:
             aggs.append(json.load(f))
+        for pth in (outpath, errpath):
+            try:
+                os.remove(pth)
+            except OSError:
+                pass
 
     # ---- merge
     tot = dict(evaluated=0, verdicts={}, classes={}, features={}, hooks={}, obs={}, sets={},
@@ -257,7 +265,7 @@ def run_check(pid, tier, seed, budget=None, workers=None, ncases=None):
     printed = set()
     for viol in tot['violations']:
         sig = viol.get('sig', 'unspecified')
-        fname = f"{jhash(sig, 8)}-{viol.get('index', 'x')}.json"
+        fname = f"{jhash(sig, 8)}-{viol.get('index', 'x')}{'' if os.path.realpath(env.REPO) == os.path.realpath('/repo') else '-scratch' + str(os.getpid())}.json"
         path = os.path.join(repdir, fname)
         rep = dict(property=pid, tier=tier, seed=seed, index=viol.get('index'), sig=sig,
                    known=sig not in unlisted, **{k: v for k, v in viol.items() if k not in ('sig', 'index')})
